@@ -271,13 +271,15 @@ func (s *ldapService) serve(ctx context.Context, conn net.Conn) error {
 		}
 
 		// Handle request and create a response packet(ASN.1 BER)
+		var werr error
 		for _, h := range s.Handlers {
 			plist := h.handle(p, elog)
 
 			if len(plist) > 0 {
 				for _, part := range plist {
-					if _, err := s.con.Write(part.Bytes()); err != nil {
-						return err
+					if _, werr = s.con.Write(part.Bytes()); werr != nil {
+						// the client may be gone already; its request is reported all the same
+						break
 					}
 				}
 				// request is handled
@@ -285,7 +287,7 @@ func (s *ldapService) serve(ctx context.Context, conn net.Conn) error {
 			}
 		}
 
-		if s.wantTLS {
+		if werr == nil && s.wantTLS {
 			s.wantTLS = false
 			if err := s.StartTLS(s.tlsConfig); err != nil {
 				return err
@@ -301,6 +303,9 @@ func (s *ldapService) serve(ctx context.Context, conn net.Conn) error {
 			event.CopyFrom(elog),
 		))
 
+		if werr != nil {
+			return werr
+		}
 	}
 	return nil
 }
